@@ -353,13 +353,20 @@ def rule_reference_shape_by_name(ctx):
     R = "C19.validation-before-write"
     fi = prog.func(REG + "::_validate_ref_props")
     raising = [x for x in body_walk(fi.node) if isinstance(x, ast.If) and any(isinstance(s_, ast.Raise) for s_ in x.body)]
+    # roles, not names: the property object is the second loop variable over <props>.items(); the reference type is the
+    # variable both branches of the 2.0-observable test assign
+    lp = next((x for x in body_walk(fi.node) if isinstance(x, ast.For) and isinstance(x.target, ast.Tuple) and len(x.target.elts) == 2), None)
+    rvs = {norm(a_.targets[0]) for a_ in body_walk(fi.node) if isinstance(a_, ast.Assign) and norm(a_.value) in ("ObjectReferenceProperty", "ReferenceProperty")}
+    if lp is None or len(rvs) != 1:
+        raise AnalysisError("_validate_ref_props: loop over the properties / reference-type variable not found")
+    pv, rv = norm(lp.target.elts[1]), sorted(rvs)[0]
     single = plural = False
     for x in raising:
         cj = [norm(c_) for c_ in conjuncts(x.test)] + [norm(tt) for tt, pol, _ in guard_chain(x) if pol]
         t = " & ".join(cj)
-        if "== 'ref'" in t and "isinstance(prop_obj, ref_prop_type)" in t.replace("not ", "") and "ListProperty" not in t:
+        if "== 'ref'" in t and ("isinstance(%s, %s)" % (pv, rv)) in t.replace("not ", "") and "ListProperty" not in t:
             single = True
-        if "== 'refs'" in t and "isinstance(prop_obj, ListProperty)" in t and "prop_obj.contained" in t:
+        if "== 'refs'" in t and ("isinstance(%s, ListProperty)" % pv) in t and ("%s.contained" % pv) in t:
             plural = True
     unwraps = [a_ for a_ in body_walk(fi.node) if isinstance(a_, ast.Assign) and norm(a_.value).endswith(".contained")]
     run.check(single and plural and not unwraps, R, key(fi.module.relpath, fi.qualname, "shape-follows-singular-plural-name"),
